@@ -35,6 +35,7 @@
 #include "src/kernel/resource/StandardLinkImpl.hpp"
 
 #include <sys/mman.h>
+#include <sys/resource.h>
 #include <sys/wait.h>
 #include <unistd.h>
 
@@ -503,6 +504,12 @@ int main(int argc, char** argv)
       if (p == 0) {
         const char* to = getenv("ROUTEX_TIMEOUT"); // a case that hangs dies of SIGALRM and is reported as CRASH sig=14
         alarm(to ? atoi(to) : 600);
+        if (const char* cpu = getenv("ROUTEX_CPU")) { // CPU-time limit (robust on a loaded machine): SIGXCPU = sig 24
+          struct rlimit rl = {static_cast<rlim_t>(atoi(cpu)), static_cast<rlim_t>(atoi(cpu) + 1)};
+          setrlimit(RLIMIT_CPU, &rl);
+        }
+        struct rlimit mem = {3UL << 30, 3UL << 30}; // a route that grows for ever must not eat the machine
+        setrlimit(RLIMIT_AS, &mem);
         if (efd >= 0)
           dup2(efd, 2);
         run_case(id, lines);
